@@ -762,6 +762,17 @@ def _meta_writer(ctx):
     return meta_fn, cands[0]
 
 
+def _n_updates(m, f):
+    """number of dict.update calls a function makes, itself or in the functions of its module it calls (one level): the
+    raw-metadata merge is the 4-parameter reader function that layers global < composite < sign < own"""
+    n = sum(1 for c in calls_in(f.node) if (call_name(c) or '').endswith('.update'))
+    for c in calls_in(f.node):
+        for g in m.resolve_call(f, c) or ():
+            if g.cls is None and g.module == f.module and g.qualname != f.qualname:
+                n += sum(1 for c2 in calls_in(g.node) if (call_name(c2) or '').endswith('.update'))
+    return n
+
+
 def r8(ctx):
     m = ctx.model
     meta_fn, mkstr = _meta_writer(ctx)
@@ -770,8 +781,7 @@ def r8(ctx):
     T, G1, G2 = S('T'), S('G1'), S('G2')
     # the reader function that lexes "key=value ..." (holds the metadata regex) and the one merging the raw dicts
     lex = ds9.meta_lexer(m)
-    merge = [f for f in rmod.functions.values() if len(f.node.args.args) == 4
-             and sum(1 for c in calls_in(f.node) if (call_name(c) or '').endswith('.update')) >= 3]
+    merge = [f for f in rmod.functions.values() if len(f.node.args.args) == 4 and _n_updates(m, f) >= 3]
     ctx.need(len(merge) == 1, 'ds9 read', 'raw-metadata merge function not identified')
     merge = merge[0]
     cases = [('CirclePixelRegion', 'circle', 'pixel'), ('CircleSkyRegion', 'circle', 'sky'),
@@ -1194,8 +1204,7 @@ def _r10_impl(ctx, build_only=False):
         c = [f for f in mod.functions.values() if callee_test(f)]
         ctx.need(len(c) == 1, 'ds9', f'{what} not identified ({[x.qualname for x in c]})')
         return c[0]
-    merge = fn_calling(rmod, lambda f: len(f.node.args.args) == 4 and sum(
-        1 for c in calls_in(f.node) if (call_name(c) or '').endswith('.update')) >= 3, 'raw-metadata merge function')
+    merge = fn_calling(rmod, lambda f: len(f.node.args.args) == 4 and _n_updates(m, f) >= 3, 'raw-metadata merge function')
     # split and translation are the two functions the region builder applies to raw_meta, in that order
     callees = []
     for st in stmts_of(make.node):
